@@ -232,7 +232,7 @@ def main(run):
     ]
     run.assumptions += [
         "IEEE rounding of the C/Python code is not modelled",
-        "eigen-perturbation theory (Hellmann-Feynman for a differentiable simple eigenpair) is a hypothesis of gv_eq_grad_freq_partial",
+        "existence of a continuous normalised eigenvector branch through a simple eigenvalue is a hypothesis of gv_eq_grad_freq_of_branch_partial (Hellmann-Feynman itself is proved)",
         "the dielectric tensor is symmetric (the Python path differentiates q.eps.q as 2 eps q)",
         "Gonze-Lee NAC group velocities use finite differences inside phonopy itself and are not covered",
         "spglib supplies the primitive/supercell index tables; shortest-vector tables are C05's business",
@@ -702,7 +702,7 @@ def main(run):
                 run.broke("correspondence", "%s: implementation %.15g vs model %.15g" % (kind, ref, val), info)
     run.cov["correspondence"]["compared"] = ncmp
     run.cov["oracle"]["C-derivative-fails-on-non-symmetric-fc(cases)"] = f15_hits
-    run.cov["partial"] = ["gv_eq_grad_freq_partial: the Hellmann-Feynman derivative of the eigenvalue branch is a hypothesis (FullStatement_gv_eq_grad_freq stated, not proved); carried by the finite-difference oracle on the reported frequencies"]
+    run.cov["partial"] = ["gv_eq_grad_freq_*_partial: the existence of a continuous eigen-branch through a simple eigenvalue is assumed (hellmann_feynman itself is proved; FullStatement_gv_eq_grad_freq stated, not proved); carried by the finite-difference oracle on the reported frequencies"]
     if as_written:
         run.cov["partial"].append("py_eq_c_on_symmetric holds only for index-permutation symmetric force constants while the source has "
                                   "`for (j = i; ...)`; c_ne_py_witness is the Lean counterexample; ddmC_fixed_eq_py is the theorem for the repaired bounds")
